@@ -40,6 +40,9 @@ struct KnotSpec {
     post_err: Option<ErrKind>,
     choice: bool,
     choice_warn: bool,
+    /// a second choice whose condition divides by zero: the error is raised while the choices
+    /// are gathered, after the first (visible) one has been generated
+    choice_err: bool,
 }
 
 struct Chain {
@@ -67,6 +70,7 @@ fn gen_chain(t: &mut Tape) -> Chain {
             post_err: None,
             choice: t.chance(1, 4),
             choice_warn: false,
+            choice_err: false,
         };
         match t.pick(9) {
             0 => k.inline_err = Some(ErrKind::DivZero),
@@ -78,6 +82,7 @@ fn gen_chain(t: &mut Tape) -> Chain {
         }
         if k.choice {
             k.choice_warn = t.chance(1, 2);
+            k.choice_err = k.inline_err.is_none() && k.post_err.is_none() && t.chance(1, 3);
         }
         specs.push(k);
     }
@@ -88,6 +93,7 @@ fn gen_chain(t: &mut Tape) -> Chain {
         if let Some(last) = specs.last_mut() {
             last.choice = false;
             last.choice_warn = false;
+            last.choice_err = false;
         }
     }
     for i in 0..n {
@@ -144,6 +150,12 @@ fn gen_chain(t: &mut Tape) -> Chain {
                 warns.push((nm, i, 2));
             } else {
                 src.push_str(&format!("    Chosen {i}.\n"));
+            }
+            if k.choice_err {
+                src.push_str(&format!("* {{1 / zero > 0}} [bad {i}]\n    Never {i}.\n"));
+                errs.push(i);
+                // (the choice body, where a warning may sit, is not reached before this error)
+                inline_errs.push(i);
             }
             src.push_str("-\n");
         }
@@ -385,6 +397,10 @@ pub fn exec(case: &J, acc: &mut Acc) -> Result<(), Fail> {
                 if had_error {
                     if h.story.can_continue() {
                         return Err(Ok(fail("error-does-not-stop", "after an error the story can still continue".to_string())));
+                    }
+                    let left: Vec<String> = h.story.get_current_choices().iter().map(|c| c.text.clone()).collect();
+                    if !left.is_empty() {
+                        return Err(Ok(fail("error-does-not-stop", format!("the story was stopped by an error but still offers choices {left:?}"))));
                     }
                     // react: reset, redirect (handler only), or stop
                     let choice = next_policy(3);
